@@ -6,8 +6,8 @@ package funnel
 // keeps the list of outcomes.
 
 func init() {
-	verifRegister("c07_window_seq", VerifC07WindowSeq)
-	verifRegister("c07_window_step", VerifC07WindowStep)
+	verifRegister("VerifC07WindowSeq", VerifC07WindowSeq)
+	verifRegister("VerifC07WindowStep", VerifC07WindowStep)
 }
 
 // refTolerated says whether a nack appended to hist is tolerated: the nacks
